@@ -25,6 +25,7 @@ import os
 import re
 
 from .common import *
+from ..tables import cdec, canon
 from .. import ones
 from ..cfg import CFG
 from ..report import run_sub
@@ -245,8 +246,9 @@ def run(chk, tier):
                     oke, whye = False, 'leaves the loop under %s' % (d,)
                     continue
                 dd = dict(d[1:])
-                ne = dd.get('Ne(i0, ignore_word)')
-                odd = dd.get('Ne(BitAnd(len(data), 1), 0)')
+                cdx = cdec(list(d[1:]))
+                ne = (lambda kv: None if cdx.get(kv[0]) is None else int(cdx.get(kv[0]) == kv[1]))(canon('Ne(i0, ignore_word)', 1))
+                odd = (lambda kv: None if cdx.get(kv[0]) is None else int(cdx.get(kv[0]) == kv[1]))(canon('Ne(BitAnd(len(data), 1), 0)', 1))
                 tail = ne == 1 and odd == 1
                 seen_tail.add((ne, odd))
                 want = r'Add\(sum0, Shl\((?:as_u32\()?index\(data, Sub\(len\(data\), 1\)\)\)?, 8\)\)' if tail else r'sum0'
